@@ -801,7 +801,7 @@ static int cmd_worker(int argc, char** argv) {
     ::mkdir(outdir.c_str(), 0755);
     setup_fds(outdir + "/" + prop + "-w" + std::to_string(start) + "-" + std::to_string((long)::getpid()) + ".stderr");
     auto need = sc->pool_need();
-    g_isolate = need.first + need.second > 0;
+    g_isolate = need.first + need.second > 0 && !std::getenv("TEAKSIM_NO_ISOLATE"); // coverage runs execute in-process
     if (g_isolate)
         prefill_pool(need.first, need.second);
     auto t0 = std::chrono::steady_clock::now(); // the budget counts simulation time, not the construction of the instance pool
@@ -931,7 +931,7 @@ static int cmd_replay(int argc, char** argv) {
     }
     setup_fds(path + ".stderr");
     auto need = sc->pool_need();
-    g_isolate = need.first + need.second > 0;
+    g_isolate = need.first + need.second > 0 && !std::getenv("TEAKSIM_NO_ISOLATE"); // coverage runs execute in-process
     Outcome out = run_plan(sc, plan);
     if (out.cls == "CRASH") {
         report(fmt("REPLAY cls=CRASH hash=%llx deterministic=1 aborted=0 detail=%s", (unsigned long long)out.hash,
